@@ -54,6 +54,19 @@ func checkFileIDSetsSorted(recoverySet, nonRecoverySet []fileID) error {
 		return errors.New("non-recovery set IDs not sorted")
 	}
 
+	// A file ID may be listed only once: every entry gets its own
+	// shard table, sized by the file's checksum list.
+	for i := 1; i < len(recoverySet); i++ {
+		if recoverySet[i] == recoverySet[i-1] {
+			return errors.New("duplicate recovery set ID")
+		}
+	}
+	for i := 1; i < len(nonRecoverySet); i++ {
+		if nonRecoverySet[i] == nonRecoverySet[i-1] {
+			return errors.New("duplicate non-recovery set ID")
+		}
+	}
+
 	return nil
 }
 
